@@ -392,7 +392,8 @@ def main(argv):
     for o in out_of_reach:
         if o["function"] in have_b and not any(v["obligation"].startswith(o["function"]) for v in violations):
             base = baseline_status(o["function"])
-            if base != "out_of_reach":
+            declared = bool(getattr(reg.contracts.get(o["function"]), "bounded_only", ""))
+            if base != "out_of_reach" and not declared:
                 undecided.append(f"{o['function']} fell out of the verifier's reach ({o['reason'][:160]}); bounded stand-in passes")
     # ---------------- verdict
     lines = list(known_lines)
